@@ -52,7 +52,11 @@ pub fn push_case<'a>(bt: &mut Batch<'a>, rep: &mut Report, o: Opts, src: Src, na
                 rep.fail("commonmark-ignores-sourcepos", "cm", input.clone(), diff_window(&ma, &mb));
             }
         }
-        (Err(e), _) | (_, Err(e)) => rep.fail("render-total", "panic", input, e),
+        (Err(_), _) | (_, Err(_)) => {
+            // totality is C01's subject (e.g. experimental_minimize_commonmark re-parses its own output and can
+            // hit the listed Spx::consume assertion): counted, not judged here
+            rep.count("skipped-panic");
+        }
     }
 }
 
